@@ -60,13 +60,9 @@ fn check_ledger() {
 /// or after (symbolic), drops in symbolic order; the other reader may publish at any atomic
 /// step. Every read returns the decoding, exactly one decoding stays cached until the value
 /// and its clone are dropped, every decoding ever created ends with no outstanding reference.
-#[kani::proof]
-#[kani::unwind(6)]
-#[kani::stub(crate::serde::de::from_slice_unchecked, cut_from_slice_unchecked)]
-#[kani::stub(std::sync::Arc::new, arc_new_ledger)]
-fn e_lazy_parse_from() {
+fn lazy_body(ledger: bool) {
     unsafe {
-        INTERFERE = Some(other_reader_publishes);
+        INTERFERE = Some(if ledger { other_reader_publishes } else { other_reader_publishes_plain });
         CREATED = 0;
         OTHER_PUBLISHED = 0;
     }
@@ -102,8 +98,38 @@ fn e_lazy_parse_from() {
         drop(c1);
         drop(c0);
     }
-    check_ledger();
-    kani::cover!(unsafe { OTHER_PUBLISHED } == 1 && unsafe { CREATED } == 2);
-    kani::cover!(unsafe { OTHER_PUBLISHED } == 0 && unsafe { CREATED } == 1);
+    if ledger {
+        check_ledger();
+    }
+    kani::cover!(unsafe { OTHER_PUBLISHED } == 1);
+    kani::cover!(unsafe { OTHER_PUBLISHED } == 0);
     kani::cover!(unsafe { ATOMIC_STEPS } >= 4);
+}
+
+/// Variant with the reference ledger (extra handle per decoding): decides leaks and
+/// over-releases by counting.
+#[kani::proof]
+#[kani::unwind(6)]
+#[kani::stub(crate::serde::de::from_slice_unchecked, cut_from_slice_unchecked)]
+#[kani::stub(std::sync::Arc::new, arc_new_ledger)]
+fn e_lazy_parse_from() {
+    lazy_body(true);
+}
+
+/// Variant without any extra handle: every decoding really is freed when its last owner lets
+/// go, so CBMC's dealloc-layout, double-free and use-after-free checks see the real frees
+/// (a decoding released through the wrong type is freed with the wrong layout).
+#[kani::proof]
+#[kani::unwind(6)]
+#[kani::stub(crate::serde::de::from_slice_unchecked, cut_from_slice_unchecked)]
+fn e_lazy_parse_from_frees() {
+    lazy_body(false);
+}
+
+unsafe fn other_reader_publishes_plain(cell: *mut *mut u8) {
+    if (*cell).is_null() {
+        let s = String::from("x");
+        *cell = Arc::into_raw(Arc::new(s)) as *mut u8;
+        OTHER_PUBLISHED += 1;
+    }
 }
